@@ -652,6 +652,9 @@ Definition C12_round (c : ccfg) (parent : json) (key : string) (evs : list ev) (
       | None =>
           (* only benign races after a clean prelude: not an error *)
           if status_phase_seen c parent evs && forallb accepted (before_hook evs) &&
+             (* a finalized answer puts the finalizer removal between the hook and the status write: a parent
+                that is gone at that point is reported (the next sync finds nothing to do); not judged here *)
+             negb (match round_hook evs with Some (_, _, hr) => hr_finalized hr | None => false end) &&
              forallb (benign_after_hook c parent) (after_hook evs) &&
              negb (existsb hard_failure evs) && qhas qs "AddRateLimited" key
           then
